@@ -8,6 +8,7 @@ from hypothesis import strategies as st
 from . import gram
 
 TOK_SETS = [['a', 'b', 'c', 'd'], ['aa', 'ab', 'b', 'c'], ['x', 'yx', 'yy', 'z'], ['a', 'ba', 'bb', 'c']]
+NAMECLASH_SETS = [['comma', ',', 'plus', '+'], ['+', 'plus', 'dot', '.'], ['x', 'semicolon', ';', 'colon']]
 OVL_VALUES = ['a', 'ab', 'b', 'bc', 'abc', 'c', 'ca', 'aa']
 # (regex, flags, examples)
 RE_FAMILY = [
@@ -36,13 +37,14 @@ IGNORES = {
 class Opts(object):
     def __init__(self, terms='tok', max_rules=4, shaping=False, priorities=False, acyclic=False, templates=False,
                  ignore=True, term_prio=False, max_alts=3, max_items=3, depth=2, big_rep=False, anon_re=False,
-                 underscore_terms=None, ignore_kinds=None, nonnull=False, unit_bias=False, tok_sets=None, distinct_anon=False, unique_aliases=False, re_safe=False, ignore_in_rules=False, lit_tmpl_args=False):
+                 underscore_terms=None, ignore_kinds=None, nonnull=False, unit_bias=False, tok_sets=None, distinct_anon=False, unique_aliases=False, re_safe=False, ignore_in_rules=False, lit_tmpl_args=False, anon_lits=False):
         self.terms = terms; self.max_rules = max_rules; self.shaping = shaping; self.priorities = priorities
         self.acyclic = acyclic; self.templates = templates; self.ignore = ignore; self.term_prio = term_prio
         self.max_alts = max_alts; self.max_items = max_items; self.depth = depth; self.big_rep = big_rep
         self.anon_re = anon_re
         self.underscore_terms = shaping if underscore_terms is None else underscore_terms
         self.ignore_kinds = ignore_kinds
+        self.anon_lits = anon_lits      # anonymous string literals (of named terminals' patterns and of values no terminal has) without any shaping feature
         self.lit_tmpl_args = lit_tmpl_args        # anonymous literals as template arguments (only in calling rules without '!')
         self.ignore_in_rules = ignore_in_rules      # an %ignore'd terminal may also be referenced by a rule (mandatory-whitespace idiom)
         self.tok_sets = tok_sets
@@ -138,6 +140,9 @@ def grammars(draw, o):
             if spare and o.shaping and draw(st.integers(0, 3)) == 0:
                 return ['lit', spare[draw(st.integers(0, len(spare) - 1))], '']
             return ['t', tnames[draw(st.integers(0, len(pats) - 1))]]
+        if o.anon_lits and not o.shaping and draw(st.integers(0, 2)) == 0:
+            allv = [t['pat']['value'] for t in terms[:len(pats)] if t['pat']['kind'] == 'str'] + list(spare)
+            if allv: return ['lit', allv[draw(st.integers(0, len(allv) - 1))], '']
         if o.shaping and draw(st.integers(0, 3)) == 0:
             # anonymous literal; sometimes the pattern of a named terminal
             t = terms[draw(st.integers(0, len(pats) - 1))]
